@@ -125,12 +125,16 @@ def run(prog: Program, rep: Report, tier: str):
         for n, var, val in fa.stores(f"{ps[0]}."):
             attr = var.split(".", 1)[1]
             construct = f"attr:{attr}"
+            t = None
             if val is None:
-                rep.unk("G6.scale-endpoints", fi, construct, "augmented / tuple assignment not modelled", line=fa.line(n),
-                        clause="C15.2")
-                continue
+                t = _component_term(prog, C, fa, n, var)
+                if t is None:
+                    rep.unk("G6.scale-endpoints", fi, construct, "augmented / tuple assignment not modelled", line=fa.line(n),
+                            clause="C15.2")
+                    continue
             n_attr += 1
-            t = fa.sym.term(val, n)
+            if t is None:
+                t = fa.sym.term(val, n)
             # compounding: reads of written attributes
             reads = {lf[1] for lf in leaves(t) if lf[0] == "self"} | {lf[1][5:] for lf in leaves(t)
                                                                         if lf[0] == "var" and lf[1].startswith("self.")}
@@ -253,6 +257,64 @@ def run(prog: Program, rep: Report, tier: str):
     names.check(prog, rep, mods, clause="C15.G1", floor=40)
 
 
+def _subst(t, mapping):
+    if isinstance(t, tuple):
+        if t in mapping:
+            return mapping[t]
+        return tuple(_subst(x, mapping) for x in t)
+    return t
+
+
+def _renorm(t):
+    from ..sym import poly_term
+    if isinstance(t, tuple) and t:
+        if t[0] == "poly":
+            p = Poly()
+            for mono, c in t[1]:
+                m = Poly.const(Fraction(*c))
+                for a, pw in mono:
+                    for _ in range(pw):
+                        m = m * term_to_poly(_renorm(a))
+                p = p + m
+            return poly_term(p)
+        return tuple(_renorm(x) for x in t)
+    return t
+
+
+def _component_term(prog: Program, C: ClassInfo, fa: FA, n: int, var: str) -> Optional[Term]:
+    """self.a, self.b = self.helper(args): the term of the component bound to ``var``, obtained by inlining the helper's single
+    'return x, y' with its parameters replaced by the argument terms."""
+    st = fa.cfg.nodes[n].ast
+    if not (isinstance(st, ast.Assign) and isinstance(st.targets[0], ast.Tuple) and isinstance(st.value, ast.Call)):
+        return None
+    names_ = [f"{e.value.id}.{e.attr}" if isinstance(e, ast.Attribute) and isinstance(e.value, ast.Name) else getattr(e, "id", None)
+              for e in st.targets[0].elts]
+    if var not in names_:
+        return None
+    k = names_.index(var)
+    f = st.value.func
+    if not (isinstance(f, ast.Attribute) and isinstance(f.value, ast.Name)):
+        return None
+    h = C.lookup(f.attr)
+    if h is None:
+        return None
+    ha = fa_of(prog, h)
+    rets = [t for _, t in ha.returns() if t is not None]
+    if len(rets) != 1 or rets[0][0] != "tuple" or len(rets[0][1]) <= k:
+        return None
+    hps = h.params()
+    if not h.is_static:
+        hps = hps[1:]
+    mapping = {}
+    for i, a in enumerate(st.value.args):
+        if i < len(hps):
+            mapping[("param", hps[i])] = fa.sym.term(a, n)
+    for kw in st.value.keywords:
+        if kw.arg in hps:
+            mapping[("param", kw.arg)] = fa.sym.term(kw.value, n)
+    return _renorm(_subst(rets[0][1][k], mapping))
+
+
 def scheduled(prog: Program, rep: Report):
     rep.rule("G6.schedule-index", "KDScheduledTransform.__call__: the global batch index is (sample_counter // batch_size) * "
              "num_workers + rank over the attributes the worker hook stored; the strength is schedule.get_value(<that index>, "
@@ -312,6 +374,46 @@ def scheduled(prog: Program, rep: Report):
     if wi is not None:
         wa = fa_of(prog, wi)
         rep.analysed_add("functions", f"{wi.module.relpath}:{wi.qualname}")
+        # schedule length in epochs mode: epochs * (batches per epoch), the per-epoch count rounded per epoch
+        rep.rule("G6.schedule-length", "with an epochs budget the schedule length is epochs * <batches per epoch>, the per-epoch "
+                 "count being dataset_len // batch_size (drop_last) or its ceiling - rounded once per epoch, not once over the "
+                 "whole run; with an updates budget it is the number of updates")
+        ep = ("param", "epochs")
+        for m, var, val in wa.stores():
+            if var != f"{wa.self_name}.n_batches" or val is None:
+                continue
+            conds = wa.conds_at(m, asserts=False)
+            if not any(c[0] == "not" and c[1][0] == "is" and ep in c[1][1] for c in conds):
+                continue
+            srcs = [wa.sym.term(val, m)]
+            # resolve a versioned 'batches_per_epoch' factor into its definitions
+            p = term_to_poly(srcs[0])
+            ok = None
+            why = f"schedule length {p!r} of unrecognised shape"
+            if p.degree_in(ep) == 1 and p.coeff_of(ep) * Poly.atom(ep) == p:
+                per = p.coeff_of(ep)
+                atoms = list(per.atoms())
+                cands = []
+                if len(atoms) == 1 and per == Poly.atom(atoms[0]):
+                    a = atoms[0]
+                    if a[0] == "var":
+                        for d in a[2]:
+                            v2 = wa.cfg.def_value(d, a[1])
+                            if v2 is not None:
+                                cands.append(wa.sym.term(v2, d))
+                    else:
+                        cands.append(a)
+                ok = bool(cands) and all(c[0] == "binop" and c[1] == "//" and not any(x == ep for x in leaves(c)) for c in cands)
+                why = "epochs * (per-epoch floor / ceiling division)" if ok else why
+            else:
+                fl = [a for a in p.atoms() if a[0] == "binop" and a[1] == "//" and ep in leaves(a)]
+                if fl:
+                    ok = False
+                    why = (f"the schedule length is {show(fl[0])[:80]}: the division is applied to epochs * dataset_len as a whole, "
+                           f"which exceeds epochs * (dataset_len // batch_size) whenever the remainders of several epochs add up to "
+                           f"a batch - the schedule never reaches its end value")
+            rep.decide(ok, "G6.schedule-length", wi, f"n_batches@{'drop_last' if any(c == ('param', 'drop_last') for c in conds) else 'no_drop_last'}",
+                       why, why, line=wa.line(m), clause="C15.5")
         for a in ("rank", "num_workers", "batch_size"):
             st = [(m, val) for m, var, val in wa.stores() if var == f"{wa.self_name}.{a}" and val is not None]
             ok = bool(st) and all(wa.sym.term(val, m) == ("param", a) for m, val in st)
